@@ -113,6 +113,150 @@ pub fn run_generator(c: &Case) -> Result<String, String> {
     Ok(text)
 }
 
+/// Graphs beyond the truth-table oracle (17..26 vertices, hundreds of non-adjacent pairs): the emitted
+/// text is evaluated by the reference semantics on reference diagrams and compared with the family of
+/// (maximum) cliques built directly as a diagram.
+pub fn check_wide(c: &Case) -> Check {
+    use crate::refbdd::{self, Ref};
+    let mut cj = c.to_json();
+    cj["kind"] = json!("clique-wide");
+    let v = |m: String| Violation::new(m, cj.clone());
+    let text = run_generator(c).map_err(|e| v(e))?;
+    let parsed = rparse::parse_text(text.as_bytes()).map_err(|e| v(format!("the output is not a well-formed formula: {}", e)))?;
+    front::parse(text.as_bytes(), None).map_err(|e| v(format!("rsbdd's parser rejects the output: {}", e)))?;
+    let names = rlex::identifiers(&parsed.tokens);
+    let vs = c.vertices();
+    let fv = parsed.ast.free_vars();
+    if let Some(x) = fv.iter().find(|x| !vs.contains(x)) {
+        return Err(v(format!("the formula has the free variable `{}` which is not a vertex", x)));
+    }
+    let mut m = Ref::new();
+    let got = rsem::diagram(&parsed.ast, &names, &mut m, 64).map_err(|e| v(format!("HARNESS: reference semantics: {:?}", e)))?.id;
+    // levels of the vertices: their position among the names, or fresh levels behind them
+    let mut next = names.len();
+    let level: Vec<usize> = vs
+        .iter()
+        .map(|x| match names.iter().position(|n| n == x) {
+            Some(p) if fv.contains(x) => p,
+            _ => {
+                next += 1;
+                next - 1
+            }
+        })
+        .collect();
+    let n = vs.len();
+    let mut cl = refbdd::T;
+    for i in 0..n {
+        for j in 0..i {
+            if !c.adjacent(&vs[i], &vs[j]) {
+                let (a, b) = (m.var(level[i]), m.var(level[j]));
+                let both = m.and(a, b);
+                let nb = m.not(both);
+                cl = m.and(cl, nb);
+            }
+        }
+    }
+    let want = if c.all {
+        cl
+    } else {
+        let xs: Vec<refbdd::Id> = level.iter().map(|l| m.var(*l)).collect();
+        let cs = m.counts(&xs);
+        let mut best = refbdd::F;
+        for j in (0..cs.len()).rev() {
+            let x = m.and(cl, cs[j]);
+            if x != refbdd::F {
+                best = x;
+                break;
+            }
+        }
+        best
+    };
+    if got != want {
+        let d = m.xor(got, want);
+        let a = m.any_sat(d).unwrap_or_default();
+        let set: Vec<&String> = vs.iter().enumerate().filter(|(i, _)| a.iter().any(|(l, b)| *l == level[*i] && *b)).map(|x| x.1).collect();
+        let asg = |l: usize| a.iter().any(|(x, b)| *x == l && *b);
+        return Err(v(format!(
+            "the vertex set {:?} {} a model of the formula but {} {} ({} vertices, -u={}, -a={})",
+            set,
+            if m.eval(got, &asg) { "is" } else { "is not" },
+            if m.eval(want, &asg) { "is" } else { "is not" },
+            if c.all { "a clique" } else { "a maximum clique" },
+            n,
+            c.undirected,
+            c.all
+        )));
+    }
+    Ok(())
+}
+
+/// deterministic graphs of n vertices with many non-adjacent pairs
+pub fn wide_graph(n: usize, shape: usize, seed: u64) -> Vec<(String, String)> {
+    let mut rng = crate::util::Rng::new(seed ^ ((n as u64) << 16) ^ shape as u64);
+    let name = |i: usize| format!("a{}", i);
+    let mut es: Vec<(String, String)> = Vec::new();
+    match shape % 5 {
+        0 => {
+            for i in 0..n {
+                es.push((name(i), name((i + 1) % n)));
+            }
+        }
+        1 => {
+            for i in 0..n {
+                es.push((name(i), name((i + 1) % n)));
+                es.push((name((i + 1) % n), name(i)));
+            }
+        }
+        2 => {
+            // disjoint triangles / a 4-clique, both directions
+            let mut i = 0;
+            while i + 2 < n {
+                for (a, b) in [(i, i + 1), (i + 1, i + 2), (i, i + 2)] {
+                    es.push((name(a), name(b)));
+                    es.push((name(b), name(a)));
+                }
+                i += 3;
+            }
+            for a in 0..4.min(n) {
+                for b in 0..a {
+                    es.push((name(a), name(b)));
+                    es.push((name(b), name(a)));
+                }
+            }
+        }
+        3 => {
+            // sparse random, mixed directions
+            for _ in 0..2 * n {
+                let (a, b) = (rng.below(n), rng.below(n));
+                if a != b {
+                    es.push((name(a), name(b)));
+                    if rng.flag() {
+                        es.push((name(b), name(a)));
+                    }
+                }
+            }
+            for i in 0..n {
+                es.push((name(i), name((i + 7) % n)));
+            }
+        }
+        _ => {
+            // dense: complete graph minus a random set of ~n pairs
+            let mut missing: Vec<(usize, usize)> = Vec::new();
+            for _ in 0..n {
+                missing.push((rng.below(n), rng.below(n)));
+            }
+            for a in 0..n {
+                for b in 0..n {
+                    if a != b && !missing.contains(&(a, b)) && !missing.contains(&(b, a)) {
+                        es.push((name(a), name(b)));
+                    }
+                }
+            }
+        }
+    }
+    es
+}
+
 pub fn check_case(c: &Case, solver: bool) -> Check {
     let cj = c.to_json();
     let v = |m: String| Violation::new(m, cj.clone());
@@ -456,11 +600,48 @@ pub fn run(ctx: &mut Ctx) -> Result<(), Violation> {
         Ok(())
     });
     ctx.stage("vertex-names-fed-back-from-the-output", false, r)?;
+
+    let mut wjobs: Vec<Case> = Vec::new();
+    for n in ctx.tier.pick(vec![17usize, 18, 24], vec![16usize, 17, 18, 19, 23, 24, 26, 33]) {
+        for shape in 0..5usize {
+            for (undirected, all) in [(false, true), (true, true), (true, false), (false, false)] {
+                if ctx.tier == Tier::Quick && !all && shape % 2 == 1 {
+                    continue;
+                }
+                wjobs.push(Case { edges: wide_graph(n, shape, ctx.seed), undirected, all });
+            }
+        }
+    }
+    let r = par_jobs(ctx, &wjobs, |c, st| {
+        st.eval();
+        let n = c.vertices().len();
+        let vs = c.vertices();
+        let mut non = 0usize;
+        for i in 0..n {
+            for j in 0..i {
+                if !c.adjacent(&vs[i], &vs[j]) {
+                    non += 1;
+                }
+            }
+        }
+        st.class(match non {
+            0..=127 => "wide:non-adjacent-pairs<128",
+            128..=255 => "wide:non-adjacent-pairs 128..255",
+            _ => "wide:non-adjacent-pairs>=256",
+        });
+        st.class(if c.all { "wide:--all" } else { "wide:maximum-cliques" });
+        if st.nontrivial(fnv_str(&c.to_json().to_string())) {
+            st.nt_sample(|| json!({"kind": "clique-wide", "vertices": n, "non_adjacent_pairs": non, "undirected": c.undirected, "all": c.all}));
+        }
+        check_wide(c)
+    });
+    ctx.stage("graphs-of-17-to-26-vertices-reference-diagrams", true, r)?;
     Ok(())
 }
 
 pub fn replay(case: &Value) -> Check {
     match Case::from_json(case) {
+        Some(c) if case["kind"].as_str() == Some("clique-wide") => check_wide(&c),
         Some(c) => check_case(&c, true),
         None => Err(Violation::new("unreadable replay case", case.clone())),
     }
